@@ -75,6 +75,8 @@ def gen(rng, tier):
         # the dead-time rules also hold for a call that follows an earlier one on the same object, with a worker's / facility's
         # own absence list edited in between, and for a model read from a file
         C.maybe_from_json(rng, C.maybe_abs_edit(rng, C.maybe_history(rng, spec, 0.25, reload_prob=0.2), 0.6), 0.1)
+    if not twin and spec.get("backward") is None and spec.get("history") is None and not spec.get("from_json") and rng.random() < 0.15:
+        spec["cfg"]["unit_time"] = rng.choice([2, 3])  # the clock advances by 2 or 3 per step; every absence list names times
     if twin and not random_twin and rng.random() < 0.2:
         spec["backward_twin"] = {"due": rng.random() < 0.3, "reverse": True}  # the twin clause on the result of a backward simulation
     elif twin and not random_twin and rng.random() < 0.15:
@@ -121,6 +123,8 @@ def extra_candidates(spec):
 
 def twin_eligible(spec):
     m = spec["model"]
+    if spec["cfg"].get("unit_time", 1) != 1:
+        return False  # (log indices are not times then; the twin is compared for the default clock only)
     if any(w.get("abs") for tm in m["teams"] for w in tm["workers"]):
         return False
     if any(f.get("abs") for wp in m["wps"] for f in wp["facs"]):
